@@ -187,6 +187,15 @@ def ch_opt_errors(ctx) -> Channel:
            [["vcorrupt", "1,x"]], [["vcorrupt", "1,PT5S"]], [["vcorrupt", "2024-03-05T10:20:30Z"]],
            [["start", "2024-03-05T10:20:30+24:00"]], [["start", "2024-03-05T10:20:30"]],
            [["drm", "all-foo"]], [["drm", "playready-foo"]], [["merr", "503=10:20:30Z"]]]
+    # every validator limit at the limit and one past it (fixed grid): license URLs (registered options and the
+    # raw <drm>_la_url parameters), event counts, time spans
+    for n in ("clearkey__la_url", "marlin__la_url", "playready__la_url", "clearkey_la_url", "marlin_la_url",
+              "playready_la_url"):
+        qs += [[[n, "a" * 4096]], [[n, "a" * 4097]], [["drm", "all"], [n, "https://x/" + "a" * 4086]],
+               [["drm", "all"], [n, "https://x/" + "a" * 4087]], [[n, "%41" * 4096]], [[n, "%41" * 4097]]]
+    qs += [[["events", "scte35"], ["scte35__count", "10000"]], [["events", "scte35"], ["scte35__count", "10001"]],
+           [["mup", "3162240000"]], [["mup", "3162240001"]], [["leeway", "5000000"]], [["drift", "3162240000"]],
+           [["drift", "3162240001"]], [["update", "9223372036854775808"]], [["frames", "4294967297"]]]
     client = app.client()
     # every drift value the check accepts, on every time method (the answer is computed from now - drift)
     qs += [[["drift", v]] for v in c16_http.INT_EDGE for _ in range(4)]
@@ -226,7 +235,7 @@ def ch_inject(ctx) -> Channel:
     import c16_inject as I
     ch = Channel("inject_seq", rule=(
         "correspondence: request sequences (video/audio/text segments by number and by $Time$, live manifests "
-        "by update count and by time of day, requests without the option in between) through the real app "
+        "by update count and by time of day, requests without the option and requests to another stream in between) through the real app "
         "with one cookie jar per sequence - synthetic status per request vs the Lean counter state machine "
         "(c16inj); calculate_injected_error_segments vs c16segs; non-trivial = at least one synthetic answer "
         "and at least one real answer in the sequence / at least one time position translated; distinct by case"))
@@ -469,7 +478,9 @@ def ch_clients(ctx) -> Channel:
         "pages for streams and multi-period streams) client B plays the entry (follows redirects, reads the "
         "manifest it is given with the independent MPD reader, requests init and the first media segments with "
         "the URLs the manifest spells out), client A plays it with injection options (verr / aerr / terr / merr "
-        "/ failures / vcorrupt / drm / events), B plays it again - separate cookie jars, orders B-A-B and A-B; "
+        "/ failures / vcorrupt / drm / events), B plays it again and then plays the v3 manifest of the other stream "
+        "in the other mode - separate cookie jars, orders B-A-B-S and A-B; a live manifest with patch=1 is an entry of "
+        "its own (the PatchLocation is fetched as spelled); "
         "oracle: B never receives a synthetic error or a 5xx, and no redirect target, manifest URL or player "
         "page URL B is given carries an option only A sent; the process-wide constants (module-level "
         "UPPER_CASE names and every module / class level dict, list, set, tuple of dashlive.server."
@@ -488,15 +499,15 @@ def ch_clients(ctx) -> Channel:
             opts = [C.A_OPTIONS[0], C.A_OPTIONS[(i % (len(C.A_OPTIONS) - 1)) + 1]]
         else:
             opts = [C.A_OPTIONS[i % len(C.A_OPTIONS)]]
-        for aq in opts:
-            jobs.append((e, aq, "BAB"))
+        for j, aq in enumerate(opts):
+            jobs.append((e, aq, "BABS" if (ctx.thorough or j == 0) else "BAB"))
         if ctx.thorough:
             jobs.append((e, rng.choice(C.A_OPTIONS), "AB"))
     with appboot.Clock(c16_http.NOW):
         for e, aq, order in jobs:
             ch.evaluations += 1
             try:
-                h = C.run_history(app, e, aq, order)
+                h = C.run_history(app, e, aq, order, other=C.sibling(e, E))
             except Exception as ex:
                 ch.errors.append(f"{e[0]}: {type(ex).__name__}: {ex}")
                 continue
@@ -509,7 +520,8 @@ def ch_clients(ctx) -> Channel:
                 ch.nontrivial.add((e[0], repr(aq), order))
             if h["fails"]:
                 ch.oracle_failures.append({
-                    "kind": "clients", "entry": list(e), "a_query": aq, "order": order, "why": h["fails"][0]["what"],
+                    "kind": "clients", "entry": list(e), "a_query": aq, "order": order, "other": h.get("other"),
+                    "why": h["fails"][0]["what"],
                     "failures": h["fails"][:3], "constant_changes": h["constant_changes"][:2],
                     "requests": [[s["client"], [r["url"] for r in s["trace"]][:6]] for s in h["steps"]]})
             elif h["constant_changes"]:
@@ -520,6 +532,61 @@ def ch_clients(ctx) -> Channel:
                        "B_statuses": sorted({r["status"] for s in h["steps"] if s["client"] == "B" for r in s["trace"]})},
                       limit=3)
     return ch
+
+
+# ====================================================================== follow
+
+def ch_follow(ctx) -> Channel:
+    """what the manifest hands on to the next request"""
+    import appboot
+    import c16_clients as C
+    import c16_http
+    ch = Channel("follow", rule=(
+        "what the manifest hands on (fixed grid, seed-independent): mode (vod, live) x media type (video, audio, "
+        "text) x code (503, 404) x failures (absent, 0, 1, 2) on stream bbb (it has a text track, listed by hand_made), "
+        "manifests hand_made / manifest_e / manifest_h / manifest_i in rotation for video and audio (all four in the "
+        "thorough tier, plus tears with 504; $Time$-template manifests are left out: open finding "
+        "inject-time-addressed-media), plus vcorrupt + frames per mode: one client (one cookie jar) requests the manifest with "
+        "<v|a|t>err=<code>=<segment>[&failures=K], then follows the init and media URLs of that media type exactly "
+        "as the manifest spells them ($Number$ templates; independent MPD reader) - the addressed segment K+2 "
+        "times, its neighbour once; oracle (property text): code >= 500 with failures = K >= 0 -> K synthetic "
+        "answers, then the real segment, then synthetic again; no failures or a 4xx code -> synthetic every "
+        "time; init and neighbour never synthetic; vcorrupt: the addressed video segment differs from the "
+        "unmodified one, the neighbour does not; non-trivial = at least one synthetic (or corrupted) and one real "
+        "answer; distinct by grid point"))
+    app = c16_http.world()
+    with appboot.Clock(c16_http.NOW):
+        for case in C.follow_grid(ctx.thorough):
+            ch.evaluations += 1
+            try:
+                h = C.run_follow(app, case)
+            except Exception as ex:
+                ch.errors.append(f"{case}: {type(ex).__name__}: {ex}")
+                continue
+            if "skipped" in h:
+                ch.count(f"skipped: {h['skipped']}")
+                continue
+            ch.count(f"{case['op']}:{case['mode']}:{case['ctype']}")
+            ch.count("requests", len(h["urls"]))
+            syn = [a for a in h["answers"] if a[2]]
+            if case["op"] == "corrupt" or (syn and len(syn) < len(h["answers"])):
+                ch.nontrivial.add(repr(case))
+            if h["fails"]:
+                ch.oracle_failures.append({"kind": "follow", "case": case, "why": h["fails"][0]["what"],
+                                           "failures": h["fails"][:3], "requests": h["urls"], "answers": h["answers"]})
+            ch.sample({"case": case, "target": h["target"], "answers": h["answers"]}, limit=3)
+    return ch
+
+
+def _replay_follow(f) -> dict:
+    import appboot
+    import c16_clients as C
+    import c16_http
+    app = c16_http.world()
+    with appboot.Clock(c16_http.NOW):
+        h = C.run_follow(app, f["case"])
+    return {"fails": bool(h.get("fails")), "failures": (h.get("fails") or [])[:3], "requests": h.get("urls"),
+            "answers": h.get("answers"), "skipped": h.get("skipped")}
 
 
 # ====================================================================== ntp_time
@@ -543,6 +610,11 @@ def ch_ntp(ctx) -> Channel:
     epoch1900 = datetime.datetime(1900, 1, 1, tzinfo=datetime.timezone.utc)
     clocks = list(HttpFuzz.CLOCKS) + [c16_http.NOW, "2036-02-07T06:28:16.500000Z", "2036-02-07T06:28:17Z",
                                       "2172-03-15T12:56:32Z", "2172-03-15T12:56:31.999999Z"]
+    # fixed grid of sub-second phases on both sides of the era boundary and at an ordinary instant
+    clocks += [f"{base}.{frac}Z" for base in ("2036-02-07T06:28:15", "2036-02-07T06:28:16", "2024-03-05T10:20:30",
+                                              "1970-01-01T00:00:00")
+               for frac in ("000001", "250000", "499999", "500000", "750000", "999999")]
+    clocks = list(dict.fromkeys(clocks))
     drifts = [None, 0, 1, -1, 10, -10, 86400, -86400, 2 ** 31 - 1, -(2 ** 31), 2 ** 31, -(2 ** 31) - 1, 2 ** 32,
               -(2 ** 32), 3000000000, -3000000000, 3162240000, -3162240000, 400000000, -400000000]
     cases = [(c, d) for c in clocks for d in drifts]
@@ -677,6 +749,66 @@ class HttpFuzz:
         self._shallow = c16_state.shallow()
         self.seen_sig = set()
         self.appboot = appboot
+        self._reference, self._ref_reported, self._recent = {}, set(), []
+        self._at_now, self._phase = True, "start"
+
+    # ---- checklist 1: earlier requests re-issued later, compared with their first answer
+    REFERENCE = [   # (path, query, light?) - answered by a fresh anonymous client at the clock NOW
+        ("/dash/vod/bbb/hand_made.mpd", [], True), ("/dash/live/bbb/hand_made.mpd", [], True),
+        ("/dash/live/tears/manifest_e.mpd", [["drm", "all"]], True), ("/dash/bbb/hand_made.mpd", [], True),
+        ("/dash/hand_made.mpd", [], True), ("/dash/tears/manifest_vod.mpd", [], True), ("/dash/enc.mpd", [], True),
+        ("/dash/vod/bbb/bbb_v7/1.m4v", [], True), ("/dash/vod/bbb/bbb_v7/2.m4v", [], True),
+        ("/dash/live/bbb/bbb_a1/init.m4a", [], True), ("/dash/vod/tears/tears_v1/time/0.m4v", [], True),
+        ("/dash/vod/bbb/bbb_v7_enc/1.m4v", [["drm", "all"]], True), ("/time/xsd", [], True), ("/time/http-ntp", [], True),
+        ("/play/vod/bbb/hand_made/index.html", [], True), ("/", [], True), ("/stream/1", [], True),
+        # an injected error fires as asked whatever came before: first request of a fresh session = synthetic 503
+        ("/dash/vod/bbb/bbb_v7/2.m4v", [["verr", "503=2"], ["failures", "1"]], True),
+        ("/dash/vod/bbb/bbb_a1/3.m4a", [["aerr", "404=3"]], True),
+        ("/mps/vod/c16mps/hand_made.mpd", [], False), ("/mps/live/c16mps/hand_made.mpd", [], False),
+        ("/dash/vod/syn1/hand_made.mpd", [], False), ("/dash/live/syn1/syn1_v1/init.m4v", [], False),
+        ("/dash/vod/syn1/syn1_v1/1.m4v", [], False), ("/play/live/syn1/hand_made/index.html", [], False),
+        ("/play/mps/vod/c16mps/hand_made/index.html", [], False), ("/dash/vod/c16na/hand_made.mpd", [], False),
+    ]
+
+    def _ref_answer(self, path, query):
+        import contextlib
+        c = self.app.client()
+        with contextlib.redirect_stdout(self.H._DEVNULL):
+            r = c.get(self.H.build_url(path, query))
+        body = r.get_data()
+        out = [r.status_code, body[:10] == b"Synthetic ", r.headers.get("Location")]
+        r.close()
+        return out
+
+    def reference_check(self, light: bool = False):
+        """re-issue the reference requests (fresh cookie jar, clock NOW); the first answers are the reference:
+        status, synthetic-or-not and redirect target must not depend on the history of the process"""
+        if not self._at_now:
+            return
+        first = not self._reference
+        for path, query, is_light in self.REFERENCE:
+            if light and not is_light:
+                continue
+            key = self.H.build_url(path, query)
+            got = self._ref_answer(path, query)
+            self.ch.count("reference re-issued")
+            if key not in self._reference:
+                self._reference[key] = got
+                if got[0] >= 500 and not query:
+                    self.ch.errors.append(f"reference request {key} answered {got[0]} at the start")
+                continue
+            if got != self._reference[key] and key not in self._ref_reported:
+                self._ref_reported.add(key)
+                self.ch.oracle_failures.append({
+                    "kind": "http_history", "channel": "fuzz_http", "mode": getattr(self.ctx, "mode", self.ctx.tier),
+                    "seed": self.ctx.seed, "phase": self._phase, "url": key, "path": path, "query": query,
+                    "first_answer": self._reference[key], "answer_now": got, "requests_before": self.ch.evaluations,
+                    "last_requests": self._recent[-8:],
+                    "why": f"the same request ({key}, fresh cookie jar, same clock) was answered "
+                           f"{self._reference[key]} at the start of the process and {got} after "
+                           f"{self.ch.evaluations} other requests (phase {self._phase}): [status, synthetic, Location]"})
+        if first:
+            self.ch.count("reference requests", len(self._reference))
 
     def login(self):
         self.clients = {"anon": self.app.client()}
@@ -716,6 +848,11 @@ class HttpFuzz:
             self.clients[who] = self.fresh_client(who)      # the request may have ended the session
         ch = self.ch
         ch.evaluations += 1
+        self._recent.append(f"{method} {url[:300]} [{who}]")
+        if len(self._recent) > 64:
+            del self._recent[:32]
+        if ch.evaluations % 200 == 0 and self._phase != "stored_defaults":
+            self.reference_check(light=True)
         ch.count(f"status:{res.status}")
         ch.count(f"role:{who}:{'denied' if res.status == 401 else 'served'}")
         ch.count(f"route:{endpoint}")
@@ -805,17 +942,26 @@ class HttpFuzz:
         "/dash/vod/bbb/bbb_v7/11.m4v", "/dash/vod/bbb/bbb_v7/time/9600.m4v",
         # work amplification: the response grows with a request value
         "/dash/live/bbb/hand_made.mpd?timeline=1&start=epoch&depth=2147483648",
+        "/dash/live/bbb/hand_made.mpd?timeline=1&start=epoch&depth=500000",
+        "/dash/live/bbb/hand_made.mpd?timeline=1&start=epoch&depth=5000001",
+        "/mps/live/c16mps/hand_made.mpd?depth=2147483648",
+        "/play/mps/live/c16mps/manifest_e.mpd/index.html?depth=2147483648",
+        "/dash/live/bbb/hand_made.mpd?events=ping&ping__inband=0&ping__count=10001",
+        "/dash/live/bbb/hand_made.mpd?events=ping&ping__inband=0&ping__count=2000",
+        "/dash/vod/bbb/bbb_v7/1.m4v?events=ping&ping__interval=1&ping__timescale=2500",
+    ]
+    # the largest accepted values: seconds per request, thorough tier only (the limit itself is decided in the
+    # option layer, which opt_errors evaluates at limit and limit + 1 in both tiers)
+    REGRESSIONS_SLOW = [
         "/dash/live/bbb/hand_made.mpd?timeline=1&start=epoch&depth=5000000",
         "/dash/live/bbb/manifest_n.mpd?start=epoch&depth=5000000",
-        "/mps/live/c16mps/hand_made.mpd?depth=2147483648", "/mps/live/c16mps/hand_made.mpd?depth=5000000&start=epoch",
-        "/play/mps/live/c16mps/manifest_e.mpd/index.html?depth=2147483648",
+        "/mps/live/c16mps/hand_made.mpd?depth=5000000&start=epoch",
         "/dash/live/bbb/hand_made.mpd?events=ping&ping__inband=0&ping__count=10000",
-        "/dash/vod/bbb/bbb_v7/1.m4v?events=ping&ping__interval=1&ping__timescale=2500",
     ]
 
     def regressions(self):
         """the requests that failed before the `fix:` commits of this property"""
-        for url in self.REGRESSIONS:
+        for url in self.REGRESSIONS + (self.REGRESSIONS_SLOW if self.ctx.thorough else []):
             path, _, qs = url.partition("?")
             q = [list(p) for p in urllib.parse.parse_qsl(qs, keep_blank_values=True)]
             self.one("GET", urllib.parse.unquote(path), q, "anon", None, endpoint="regression")
@@ -860,15 +1006,39 @@ class HttpFuzz:
                    "/dash/live/bbb/bbb_v7/init.m4v", "/dash/vod/bbb/bbb_a1_enc/1.m4a", "/time/iso", "/time/http-ntp", "/time/xsd",
                    "/mps/live/c16mps/hand_made.mpd", "/play/live/bbb/hand_made/index.html",
                    "/patch/bbb/hand_made/1709634000", "/dash/vod/bbb/bbb_v7/2.m4v", "/stream/1"]
+        mps_target = "/mps/live/c16mps/hand_made.mpd"
+        fast = [t for t in targets if t != mps_target]
+        core_int = ["0", "-1", "2147483648", "4294967297", "8589934593", "9007199254740993", "9223372036854775807"]
+        core_other = ["", "0", "False"]                  # falsy but legal spellings
+        k = 0
         for name in self.names:
-            vals = list(dict.fromkeys(self.H.valid_values_for(self.kinds[name]) + (self.pool.get(name) or [])))
-            for v in rng.sample(vals, min(len(vals), 6)) + [rng.choice(self.H.GENERIC)]:
+            kind = self.kinds[name]
+            vals = list(dict.fromkeys(self.H.valid_values_for(kind) + (self.pool.get(name) or [])))
+            numeric = "int" in kind.lower() or "float" in kind.lower()
+            # fixed grid first (numeric boundaries / falsy spellings, the option's own pool), then a sample
+            fixed = list(dict.fromkeys((core_int if numeric else core_other) + (self.pool.get(name) or [])[:3]))
+            rest = [v for v in vals if v not in fixed]
+            for v in fixed + rng.sample(rest, min(len(rest), 3)) + [rng.choice(self.H.GENERIC)]:
                 extra = [["events", "ping,scte35"]] if "__" in name and name.split("__")[0] in ("ping", "scte35") else []
-                self.one("GET", rng.choice(targets), [[name, v]] + extra, "anon", None, endpoint="every-option")
+                # targets in rotation (13 targets, co-prime with the grid lengths), so that every name meets every
+                # kind of route over its values
+                # (the multi-period manifest costs 0.3 s: every 40th request in the quick tier)
+                if self.ctx.thorough:
+                    t = targets[k % len(targets)]
+                else:
+                    t = mps_target if k % 40 == 39 else fast[k % len(fast)]
+                self.one("GET", t, [[name, v]] + extra, "anon", None, endpoint="every-option")
+                k += 1
 
     CLOCKS = ["1970-01-01T00:00:00Z", "1970-01-02T00:00:01Z", "2000-02-29T23:59:59.999999Z", "2024-12-31T23:59:59Z",
               "2025-01-01T00:00:00Z", "2036-02-07T06:28:15Z", "2036-02-07T06:28:16Z", "2038-01-19T03:14:08Z",
-              "2100-03-01T00:00:00Z", "2106-02-07T06:28:16Z", "9999-12-30T12:00:00Z"]
+              "2100-03-01T00:00:00Z", "2106-02-07T06:28:16Z", "9999-12-30T12:00:00Z",
+              # checklist 3: sub-second phases, Feb 28 -> Mar 1 in a non-leap year, the first microsecond of a leap
+              # day / of a month, the 32-bit 1904-based creation time of the init segment's mvhd/tkhd (2040-02-06)
+              "2024-03-05T10:20:30.000001Z", "2024-03-05T10:20:30.250000Z", "2024-03-05T10:20:30.499999Z",
+              "2024-03-05T10:20:30.500000Z", "2024-03-05T10:20:30.750000Z", "2024-03-05T10:20:30.999999Z",
+              "2023-02-28T23:59:59.500000Z", "2023-03-01T00:00:00Z", "2024-02-29T00:00:00.000001Z",
+              "2024-04-01T00:00:00Z", "2040-02-06T06:28:15.750000Z", "2040-02-06T06:28:16Z"]
 
     def clock_sweep(self, clock, n):
         """the clock-dependent routes at boundary instants (NTP era, 2^31 / 2^32 Unix seconds, year and
@@ -885,6 +1055,7 @@ class HttpFuzz:
                 [["patch", "1"]], [["events", "ping"]], [["start", "2024-03-05T10:20:30Z"]],
                 [["merr", "503=10:20:30Z"], ["start", "today"]], [["verr", "503=10:20:30Z"]]]
         saved = self.clients
+        self._at_now = False
         for now in self.CLOCKS:
             clock.set(now)
             self.clients = {"anon": self.app.client()}
@@ -893,8 +1064,58 @@ class HttpFuzz:
             for _ in range(n):
                 q = self.H.gen_query(rng, self.names, self.pool, kinds=self.kinds)
                 self.one("GET", rng.choice(targets), q, "anon", None, endpoint="clock-sweep")
+        self.loop_clocks(clock)
+        self.stale_sessions(clock)
         clock.set(self.H.NOW)
+        self._at_now = True
         self.clients = saved
+
+    def loop_clocks(self, clock):
+        """the clock exactly on (and one microsecond either side of) a loop boundary of the stored media after
+        0, 1, 2, 1000 and 10^5 loops, and on a segment boundary inside a loop: manifests and the segments at
+        the live edge (number and $Time$ addressing), availability start = epoch"""
+        import datetime
+        ext = {"video": "m4v", "audio": "m4a", "text": "m4s"}
+        epoch = datetime.datetime(1970, 1, 1, tzinfo=datetime.timezone.utc)
+        for name in ("bbb_v7", "bbb_a1"):
+            rep = self.P["reps"].get(name)
+            if rep is None:
+                continue
+            total, ts, sd, sn = sum(rep["durs"]), rep["ts"], rep["sd"], rep["sn"]
+            e = ext.get(rep["content_type"], "mp4")
+            loops = (0, 1, 2, 1000, 100000) if (self.ctx.thorough or name == "bbb_v7") else (1, 100000)
+            for k in loops:
+                for extra_ticks in ((0, sd) if k in (1, 100000) else (0,)):
+                    ticks = k * total + extra_ticks + 60 * ts          # one minute of time shift buffer behind the edge
+                    us = -(-ticks * 1000000 // ts)
+                    for d_us in (-1, 0, 1):
+                        now = epoch + datetime.timedelta(microseconds=us + d_us)
+                        clock.set(now.strftime("%Y-%m-%dT%H:%M:%S.%fZ"))
+                        q = [["start", "epoch"], ["depth", "60"]]
+                        if d_us == 0:
+                            self.one("GET", "/dash/live/bbb/hand_made.mpd", q + [["timeline", "1"]], "anon", None,
+                                     endpoint="loop-clock")
+                            self.one("GET", "/dash/live/bbb/manifest_n.mpd", q, "anon", None, endpoint="loop-clock")
+                        edge = sn + ticks // sd
+                        for num in (edge - 2, edge - 1, edge, edge + 1):
+                            if num < 0:
+                                continue
+                            self.one("GET", f"/dash/live/bbb/{name}/{num}.{e}", q, "anon", None, endpoint="loop-clock")
+                            self.one("GET", f"/dash/live/bbb/{name}/time/{(num - sn) * sd}.{e}", q, "anon", None,
+                                     endpoint="loop-clock")
+
+    def stale_sessions(self, clock):
+        """clock jumps across session / token lifetimes: cookies and tokens issued at NOW presented 2 h, 2 d, 40 d
+        and 400 d later on public and protected routes"""
+        clock.set(self.H.NOW)
+        self.login()
+        pages = ["/", "/media", "/users", "/stream/1", "/api/refresh/csrf", "/api/refresh/access", "/dash/live/bbb/hand_made.mpd",
+                 "/play/live/bbb/hand_made/index.html", "/key", "/logout"]
+        for now in ("2024-03-05T12:20:31Z", "2024-03-07T10:20:31Z", "2024-04-14T10:20:31Z", "2025-04-09T10:20:31Z"):
+            clock.set(now)
+            for who in ("anon", "user", "media", "admin"):
+                for pg in pages[:-1] if now < "2025" else pages:
+                    self.one("GET", pg, [], who, None, endpoint="stale-session")
 
     def long_strings(self):
         """every string-typed option (and the raw <drm>_la_url parameters DrmContext reads) with values of
@@ -907,11 +1128,25 @@ class HttpFuzz:
                    "/play/live/bbb/hand_made/index.html", "/mps/live/c16mps/hand_made.mpd", "/time/xsd"]
         for name in names:
             url = name.endswith("la_url")
-            sizes = H.LONG_SIZES if (url or self.ctx.thorough) else [1024, 4097, 65536 + 8]
-            vals = [H.long_value(n, url) for n in sizes] + (H.FORMAT_STRINGS if (url or self.ctx.thorough)
-                                                           else self.rng.sample(H.FORMAT_STRINGS, 2))
+            i_name = names.index(name)
+            sizes = H.LONG_SIZES if (url or self.ctx.thorough) else [[1024, 4097][i_name % 2], 65536 + 8]
+            vals = [H.long_value(n, url) for n in sizes] + (
+                H.FORMAT_STRINGS if (url or self.ctx.thorough)
+                else [H.FORMAT_STRINGS[(2 * i_name + d) % len(H.FORMAT_STRINGS)] for d in (0, 1)])
             for v in vals:
-                for t in (targets[:3] if url else self.rng.sample(targets, 2 if self.ctx.thorough else 1)):
+                if url and (self.ctx.thorough or v in vals[:len(sizes)]):
+                    ts = targets[:3]
+                elif url:               # format look-alikes: the three DRM consumers in rotation
+                    k = self._rot = getattr(self, "_rot", -1) + 1
+                    ts = [targets[k % 3]]
+                elif self.ctx.thorough:
+                    ts = self.rng.sample(targets, 2)
+                else:
+                    # stratified: the targets in rotation; the multi-period manifest (0.5 s per request) every 12th
+                    k = self._rot = getattr(self, "_rot", -1) + 1
+                    fast = targets[:4] + targets[5:]
+                    ts = [targets[4] if k % 12 == 11 else fast[k % len(fast)]]
+                for t in ts:
                     self.one("GET", t, [["drm", "all"], [name, v]], "anon", None, endpoint="long-strings")
 
     def boundary_sweep(self):
@@ -926,13 +1161,16 @@ class HttpFuzz:
                   "0100-01-01T00:00:00Z", "0001-01-01T00:00:00Z"]
         names = [n for n in ("bbb_v7", "bbb_a1", "bbb_v7_enc", "syn1_v1", "syn1_a1", "tears_v1", "c16na_v1")
                  if n in self.P["reps"]]
+        # stream age 0, 1 s, < depth, = depth - 1 s, = depth, = depth + 1 s (depth = 60 s)
+        ages = ["2024-03-05T10:20:30Z", "2024-03-05T10:20:29Z", "2024-03-05T10:19:31Z", "2024-03-05T10:19:30Z",
+                "2024-03-05T10:19:29Z"]
         if not self.ctx.thorough:
             names, starts = names[:4], [starts[0], starts[2], starts[4], starts[5]]
-        for name in names:
+        for i_name, name in enumerate(names):
             rep = self.P["reps"][name]
             e = ext.get(rep["content_type"], "mp4")
             base = f"/dash/live/{rep['stream']}/{name}"
-            for start in starts:
+            for start in starts + (ages if (self.ctx.thorough or i_name < 2) else []):
                 y, mo, d, hh, mm, ss = (int(x) for x in (start[0:4], start[5:7], start[8:10], start[11:13],
                                                          start[14:16], start[17:19]))
                 el = now - datetime.datetime(y, mo, d, hh, mm, ss)
@@ -987,11 +1225,27 @@ class HttpFuzz:
                      {"drm_clearkey": "on", "clearkey__drmloc": "bogus"}]
         effective = []
         self._effective_form = {}
+        # fixed part: every registered option once as a stored default (groups of 6 names, the value taken in
+        # rotation from the accepted pool of its kind), then the stream's manifests / segments / pages in rotation
+        fixed = []
+        for i in range(0, len(self.names), 6):
+            form = {}
+            for j, name in enumerate(self.names[i:i + 6]):
+                vals = H.valid_values_for(self.kinds[name]) if name in self.kinds else H.GENERIC
+                own = self.pool.get(name) or []
+                form[name] = own[(i + j) % len(own)] if own and (i + j) % 2 == 0 else vals[(i // 6 + j) % len(vals)]
+            if any("__" in k for k in form):
+                form.setdefault("events", "ping,scte35")
+            fixed.append(form)
         try:
-            for _ in range(n):
-                q = H.gen_query(rng, self.names, self.pool, kinds=self.kinds)
-                form = {k: v for k, v in q if k not in ("drm",)}
-                form.update(rng.choice(drm_forms))
+            for k in range(len(fixed) + n):
+                if k < len(fixed):
+                    form = {a: b for a, b in fixed[k].items() if a != "drm"}
+                    form.update(drm_forms[k % len(drm_forms)])
+                else:
+                    q = H.gen_query(rng, self.names, self.pool, kinds=self.kinds)
+                    form = {a: b for a, b in q if a not in ("drm",)}
+                    form.update(rng.choice(drm_forms))
                 if rng.random() < .3:
                     form["events"] = rng.choice(["ping", "scte35"])
                 self._last_form = {k: v for k, v in form.items()}
@@ -1002,7 +1256,7 @@ class HttpFuzz:
                 if res.status == 302:                  # saved: these defaults are in effect now
                     effective = [[k, v] for k, v in self._last_form.items()]
                     self._effective_form = dict(self._last_form)
-                for g in rng.sample(gets, 4):
+                for g in ([gets[(k + d) % len(gets)] for d in (0, 3, 6)] if k < len(fixed) else rng.sample(gets, 4)):
                     self.one("GET", g, [], "media", None, endpoint="stored-defaults", stored=effective)
         finally:
             self.one("POST", f"/stream/{spk}/defaults", [], "media", None,
@@ -1033,7 +1287,7 @@ class HttpFuzz:
                      endpoint=rule.endpoint)
 
 
-def ch_fuzz_http(ctx) -> Channel:
+def ch_fuzz_http(ctx, stop_after=None) -> Channel:
     import appboot
     import c16_http
     ch = Channel("fuzz_http", rule=(
@@ -1059,21 +1313,29 @@ def ch_fuzz_http(ctx) -> Channel:
     with appboot.Clock(c16_http.NOW) as clock:
         fz.login()
         t0 = time.perf_counter()
-        fz.clock_sweep(clock, ctx.scale(4, 150))
-        fz.login()
-        fz.regressions()
-        fz.boundary_sweep()
-        fz.long_strings()
-        fz.sweep()
-        fz.every_option()
-        fz.random_gets(ctx.scale(800, 30000))
-        fz.stored_defaults(ctx.scale(20, 300))
         before = c16_http.pools(fz.app)
-        fz.mutating(ctx.scale(250, 4000))
-        after = c16_http.pools(fz.app)
-        for k in ("streams", "mps", "mfids", "kpks", "users"):
-            if before[k] != after[k]:
-                ch.errors.append(f"the junk POST/PUT/DELETE requests changed the world: {k} {before[k]} -> {after[k]}")
+        fz.reference_check()                     # the first answers
+        phases = [("clock_sweep", lambda: (fz.clock_sweep(clock, ctx.scale(2, 150)), fz.login())),
+                  ("regressions", fz.regressions), ("boundary_sweep", fz.boundary_sweep),
+                  ("long_strings", fz.long_strings), ("sweep", fz.sweep), ("every_option", fz.every_option),
+                  ("random_gets", lambda: fz.random_gets(ctx.scale(450, 30000))),
+                  ("stored_defaults", lambda: fz.stored_defaults(ctx.scale(12, 300))),
+                  ("mutating", lambda: fz.mutating(ctx.scale(250, 4000)))]
+        for name, run in phases:
+            fz._phase = name
+            t1, e1 = time.perf_counter(), ch.evaluations
+            run()
+            ch.count(f"phase:{name}:requests", ch.evaluations - e1)
+            ch.count(f"phase:{name}:seconds", round(time.perf_counter() - t1))
+            fz.reference_check()                 # ... and again after every phase, with the whole history behind
+            after = c16_http.pools(fz.app)
+            for k in ("streams", "mps", "mfids", "kpks", "users"):
+                # (c16up is the upload stream the harness's own Uploader creates for the defaults form)
+                if [x for x in before[k] if x != "c16up"] != [x for x in after[k] if x != "c16up"]:
+                    ch.errors.append(f"phase {name} changed the world: {k} {before[k]} -> {after[k]}")
+                    before = after
+            if stop_after == name:
+                break
         ch.count("seconds", int(time.perf_counter() - t0))
     ch.sample({"routes": len(fz.rules), "option_names": len(fz.names), "streams": fz.P["streams"],
                "multi_period": fz.P["mps"]}, limit=1)
@@ -1091,7 +1353,12 @@ def ch_fuzz_mp4(ctx) -> Channel:
         "heads of three real fixtures, and one minimal file per *layout class* the fixtures lack (trun with each "
         "class of per-sample flag subsets incl. none - samples then take no space in the box -, saiz with a "
         "default size / with a size table / empty, senc of bare IVs / with subsamples / without entries, pssh v1 "
-        "with a KID list, sidx); mutations = truncations, bit flips, size-field and type-field edits, and for "
+        "with a KID list, sidx), and one file per *shape of stored media* (two segments with a short last one, a "
+        "short interior segment, one segment of an hour, 64-bit largesize moof/mdat, tfdt v0 / v1 with a first decode "
+        "time != 0 and > 2^33, fragments numbered from 0 and from 7, timescales 1 / 10^7 / 30000 with 1001-multiples, "
+        "no mehd, pssh inside the moof, explicit / implicit / absolute data addressing, sample durations in tfhd / "
+        "trex, emsg v1 in front of the sidx, 16-byte IVs with senc+PIFF in front of saiz/saio, a payload larger than "
+        "the reader's cache window 16384 x 30 and a file of exactly that length); mutations = truncations, bit flips, size-field and type-field edits, and for "
         "every count or size field that drives a parser loop (trun, saiz, saio, senc, subsample, sidx, st** "
         "tables, pssh KID list and data size, avcC/hvcC set counts; located by the independent walker) the edits "
         "0, 1, 2, 255, 2^16-1, 2^16, 2^24, 2^31-1, 2^31, 2^32-1; fed to three library entry points - index "
@@ -1108,17 +1375,20 @@ def ch_fuzz_mp4(ctx) -> Channel:
     rng = ctx.rng("fuzz_mp4")
     app = c16_http.world()
     S = M.seeds()
-    small = [k for k in sorted(S) if len(S[k]) < 20000]
+    # count-field edits: quick = the small seeds of the original and layout classes; the shape seeds (shp_*, same
+    # box layouts in other shapes) join in the thorough tier, the two cache-window files never (0.5 MB per case)
+    small = [k for k in sorted(S) if len(S[k]) < 20000 and not k.startswith("shp_")]
+    allc = [k for k in sorted(S) if k not in ("shp_over_window", "shp_at_window")]
     cases = [({"seed": k, "op": "none"}, v) for k, v in sorted(S.items())]
     n_plain = len(cases)
     # ---- count / size fields of every layout class
     quick_values = [0, 1, 2, 255, 1 << 24, 1 << 31, (1 << 32) - 1]
     count_cases = []
-    for k in (sorted(S) if ctx.thorough else small):
+    for k in (allc if ctx.thorough else small):
         count_cases += M.count_cases(k, S[k], None if ctx.thorough else quick_values)
     ch.count("count-field cases", len(count_cases))
     # ---- seeded mutations
-    n_lib, n_insp, n_idx = ctx.scale(150, 3500), ctx.scale(50, 1000), ctx.scale(40, 800)
+    n_lib, n_insp, n_idx = ctx.scale(130, 3500), ctx.scale(40, 1000), ctx.scale(28, 800)
     rand_cases = []
     for _ in range(n_lib):
         k = rng.choice(sorted(S))
@@ -1209,6 +1479,7 @@ def channels(ctx):
     yield ch_ntp(ctx)
     yield ch_vod_gate(ctx)
     yield ch_clients(ctx)
+    yield ch_follow(ctx)
     yield ch_fuzz_mp4(ctx)
     yield ch_fuzz_http(ctx)          # last: its POST/PUT/DELETE part is the only one that may change state
 
@@ -1300,14 +1571,37 @@ def _replay_clients(f) -> dict:
     import c16_http
     app = c16_http.world()
     with appboot.Clock(c16_http.NOW):
-        h = C.run_history(app, tuple(f["entry"]), f["a_query"], f.get("order", "BAB"))
+        h = C.run_history(app, tuple(f["entry"]), f["a_query"], f.get("order", "BAB"),
+                          other=tuple(f["other"]) if f.get("other") else None)
     return {"fails": bool(h["fails"]), "failures": h["fails"][:3], "constant_changes": h["constant_changes"][:2],
             "requests": [[s["client"], [[r["url"], r["status"], r.get("location")] for r in s["trace"]][:5]]
                          for s in h["steps"]]}
 
 
+def _mk_ctx(mode: str, seed: int):
+    if mode == "search":
+        return types.SimpleNamespace(tier="thorough", thorough=True, seed=seed, mode="search", prop="C16",
+                                     rng=lambda name: common.rng_for(seed, name), scale=lambda q, t: max(q, t // 6))
+    th = mode == "thorough"
+    return types.SimpleNamespace(tier=mode, thorough=th, seed=seed, mode=mode, prop="C16",
+                                 rng=lambda name: common.rng_for(seed, name), scale=lambda q, t: t if th else q)
+
+
+def _replay_history(f) -> dict:
+    """the failing input is a history: the deterministic request sequence of fuzz_http (same seed, same
+    scale) up to the end of the phase after which the reference request was answered differently"""
+    ch = ch_fuzz_http(_mk_ctx(f.get("mode", "quick"), int(f.get("seed", 0))), stop_after=f.get("phase"))
+    hits = [x for x in ch.oracle_failures if x.get("kind") == "http_history" and x.get("url") == f.get("url")]
+    return {"fails": bool(hits), "requests": ch.evaluations,
+            "answer_now": hits[0]["answer_now"] if hits else None, "why": hits[0]["why"] if hits else None}
+
+
 def _replay_failure(f) -> dict:
     k = f.get("kind")
+    if k == "http_history":
+        return _replay_history(f)
+    if k == "follow":
+        return _replay_follow(f)
     if k == "clients":
         return _replay_clients(f)
     if k == "http":
@@ -1362,10 +1656,8 @@ def search(ctx, disagreements):
                 if r["fails"]:
                     return {"kind": "http", "method": "GET", "path": path, "query": q, "who": "anon", "headers": None,
                             "now": c16_http.NOW, "status": r["status"], "why": r["why"], "url": r["url"]}
-    c2 = types.SimpleNamespace(tier="thorough", thorough=True, seed=ctx.seed + 7919,
-                               rng=lambda name: common.rng_for(ctx.seed + 7919, name),
-                               scale=lambda q, t: max(q, t // 6))
-    for fn in (ch_clients, ch_opt_errors, ch_inject, ch_loops, ch_ntp, ch_vod_gate, ch_fuzz_http, ch_fuzz_mp4):
+    c2 = _mk_ctx("search", ctx.seed + 7919)
+    for fn in (ch_follow, ch_clients, ch_opt_errors, ch_inject, ch_loops, ch_ntp, ch_vod_gate, ch_fuzz_http, ch_fuzz_mp4):
         ch = fn(c2)
         if ch.oracle_failures:
             return ch.oracle_failures[0]
